@@ -23,7 +23,34 @@ import (
 // project drops what legitimately differs between two runs (uids, versions, timestamps).
 func project(objs []map[string]interface{}) []interface{} {
 	out := []interface{}{}
+	// the simulator has no garbage collector: an object whose controller owner is gone from the store would be collected
+	// in a cluster (background propagation), so it is not part of the state two runs are compared on
+	live := map[string]bool{}
 	for _, o := range objs {
+		if md, ok := o["metadata"].(map[string]interface{}); ok {
+			if u, ok := md["uid"].(string); ok {
+				live[u] = true
+			}
+		}
+	}
+	for _, o := range objs {
+		if md, ok := o["metadata"].(map[string]interface{}); ok {
+			orphaned := false
+			if refs, ok := md["ownerReferences"].([]interface{}); ok {
+				for _, r := range refs {
+					if m, ok := r.(map[string]interface{}); ok {
+						if c, _ := m["controller"].(bool); c {
+							if u, _ := m["uid"].(string); u != "" && !live[u] {
+								orphaned = true
+							}
+						}
+					}
+				}
+			}
+			if orphaned {
+				continue
+			}
+		}
 		c := vs.DeepCopy(o).(map[string]interface{})
 		if md, ok := c["metadata"].(map[string]interface{}); ok {
 			for _, k := range []string{"uid", "resourceVersion", "creationTimestamp", "generation", "deletionTimestamp"} {
